@@ -65,6 +65,9 @@ def main():
     ap.add_argument("--only", default=None)
     ap.add_argument("--jobs", type=int, default=4)
     ap.add_argument("--seed", type=int, default=1)
+    ap.add_argument("--add-checks", default=None,
+                    help="comma-separated checks to run in addition; a "
+                    "detection is recorded in the seed's meta.json")
     ap.add_argument("--workers", type=int, default=14,
                     help="workers of each check run (the case streams depend "
                     "on it: 14 is what the registered commands use)")
@@ -79,6 +82,8 @@ def main():
         if m.get("out_of_domain") or m.get("not_detected"):
             continue
         checks = [c for c, r in m["checks_run"].items() if r["detected"]]
+        if a.add_checks:
+            checks += [c for c in a.add_checks.split(",") if c not in checks]
         tasks.append((name, checks or [m["property"]], a.seed, a.workers))
     res = {}
     bad = 0
@@ -89,9 +94,18 @@ def main():
                 print("ERROR    %-8s %s" % (name, out["error"]))
                 bad += 1
                 continue
+            # a change counts as detected when one of its checks reports it
+            bad += not any(r["exit"] == 1 for r in out.values())
             for c, r in out.items():
                 ok = r["exit"] == 1
-                bad += not ok
+                if ok and a.add_checks and c in a.add_checks.split(","):
+                    mp = os.path.join(VERIF, "seeded", name, "meta.json")
+                    m = json.load(open(mp))
+                    if not m["checks_run"].get(c, {}).get("detected"):
+                        m["checks_run"][c] = {
+                            "exit": 1, "detected": True,
+                            "first_violation": r["first"]}
+                        json.dump(m, open(mp, "w"), indent=1)
                 print("%-8s %-8s %s %s" % ("DETECTED" if ok else "MISSED",
                                            name, c, r["first"][:150]))
             sys.stdout.flush()
